@@ -217,7 +217,14 @@ pub fn gen_list(r: &mut Rng) -> Vec<Geonum> {
     for _ in 0..n {
         let g = if !v.is_empty() && r.chance(1, 4) {
             let o = *r.pick(&v);
-            match r.below(5) {
+            match r.below(6) {
+                5 => {
+                    // a twin of the PREVIOUS member: same magnitude and blade, remainder a few ulps away (adjacent near-duplicates:
+                    // anything that caches or reuses a verdict between neighbours is exposed by a threshold placed between the two)
+                    let p = *v.last().unwrap();
+                    let rem = p.angle.rem();
+                    if rem > 1e-9 && rem < 1.5 { Geonum::new_with_angle(p.mag, mk_angle(p.angle.blade(), ulps(rem, *r.pick(&[-4, -3, -2, -1, 1, 2, 3, 4])))) } else { p }
+                }
                 0 => o,
                 1 => Geonum::new_with_angle(o.mag, mk_angle(o.angle.blade() + 4 * (1 + r.below(5) as usize), o.angle.rem())),
                 2 => Geonum::new_with_angle(o.mag, gen_angle(r)),
